@@ -1,7 +1,7 @@
 //! Expressions: A-normal form — every operation that can panic becomes a `let t ← RustSem.…`
 //! pushed to `stmts` (in evaluation order), the returned text is a pure Lean term.
 
-use super::cx::{Cx, Tail};
+use super::cx::{Cx, Place, Tail};
 use super::lean_type_name;
 use crate::doc::{Doc, Stmt};
 use crate::globals::{FnInfo, SelfMode};
@@ -560,8 +560,21 @@ impl<'g> Cx<'g> {
 
     // ------------------------------------------------------------------ calls
 
-    /// resolve a call expression to a translated fn; returns the applied Lean term (a `Res` value)
-    pub fn call_term(&mut self, e: &syn::Expr, stmts: &mut Vec<Stmt>) -> R<(String, FnInfo)> {
+    /// projection of component `idx` of a right-nested tuple with `total` components
+    fn tuple_proj(t: &str, idx: usize, total: usize) -> String {
+        let mut s = t.to_string();
+        for _ in 0..idx {
+            s.push_str(".2");
+        }
+        if idx + 1 < total {
+            s.push_str(".1");
+        }
+        s
+    }
+
+    /// resolve a call expression to a translated fn; returns the applied Lean term (a `Res` value) and the places
+    /// passed as `&mut` cursor parameters (to be written back from the result tuple)
+    pub fn call_term(&mut self, e: &syn::Expr, stmts: &mut Vec<Stmt>) -> R<(String, FnInfo, Vec<Place>)> {
         match e {
             syn::Expr::Call(c) => {
                 let p = match &*c.func {
@@ -585,6 +598,44 @@ impl<'g> Cx<'g> {
                 };
                 let info = self.find_fn(st.as_deref(), &name, c.func.span())?;
                 let mut args = String::new();
+                // const-generic arguments: turbofish, or the array length of the `let` annotation
+                if !info.const_params.is_empty() {
+                    let last = p.segments.last().unwrap();
+                    let mut given: Vec<String> = Vec::new();
+                    if let syn::PathArguments::AngleBracketed(a) = &last.arguments {
+                        for ga in &a.args {
+                            let ex: Option<syn::Expr> = match ga {
+                                syn::GenericArgument::Const(ex) => Some(ex.clone()),
+                                syn::GenericArgument::Type(syn::Type::Path(tp)) if tp.qself.is_none() => {
+                                    Some(syn::Expr::Path(syn::ExprPath { attrs: vec![], qself: None, path: tp.path.clone() }))
+                                }
+                                _ => None,
+                            };
+                            if let Some(ex) = ex {
+                                let mut tmp: Vec<Stmt> = Vec::new();
+                                let (t, _) = self.expr(&ex, Some(&Ty::usize()), &mut tmp)?;
+                                if !tmp.is_empty() {
+                                    return self.bail(c.span(), "const-generic argument must be a constant expression");
+                                }
+                                given.push(t);
+                            }
+                        }
+                    }
+                    if given.is_empty() && info.const_params.len() == 1 {
+                        if let Some(h) = self.array_len_hint.take() {
+                            given.push(h);
+                        }
+                    }
+                    if given.len() != info.const_params.len() {
+                        return self.bail(
+                            c.span(),
+                            "cannot determine the const-generic argument of this call (use a turbofish or annotate the `let` with the array type)",
+                        );
+                    }
+                    for gterm in given {
+                        args.push_str(&format!(" {}", gterm));
+                    }
+                }
                 let mut idx = 0;
                 let call_args: Vec<&syn::Expr> = c.args.iter().collect();
                 if info.self_mode != SelfMode::None {
@@ -602,11 +653,28 @@ impl<'g> Cx<'g> {
                 if call_args.len() - idx != info.params.len() {
                     return self.bail(c.span(), "wrong number of arguments");
                 }
-                for (a, (_, pt)) in call_args[idx..].iter().zip(info.params.iter()) {
-                    let (t, _) = self.expr(a, Some(pt), stmts)?;
-                    args.push_str(&format!(" {}", t));
+                let mut places: Vec<Place> = Vec::new();
+                for (a, (pn, pt)) in call_args[idx..].iter().zip(info.params.iter()) {
+                    if info.mut_params.contains(pn) {
+                        // `&mut cursor` argument: a place (a `&mut impl Read` parameter passed on, or `&mut local`)
+                        let mut inner: &syn::Expr = a;
+                        loop {
+                            match inner {
+                                syn::Expr::Reference(r) => inner = &r.expr,
+                                syn::Expr::Paren(p) => inner = &p.expr,
+                                _ => break,
+                            }
+                        }
+                        let pl = self.place(inner, stmts)?;
+                        let t = self.read(&pl, stmts)?;
+                        args.push_str(&format!(" {}", t));
+                        places.push(pl);
+                    } else {
+                        let (t, _) = self.expr(a, Some(pt), stmts)?;
+                        args.push_str(&format!(" {}", t));
+                    }
                 }
-                Ok((format!("{}{}", self.fn_lean_name(&info), args), info))
+                Ok((format!("{}{}", self.fn_lean_name(&info), args), info, places))
             }
             syn::Expr::MethodCall(m) => {
                 let (r, rt) = self.expr(&m.receiver, None, stmts)?;
@@ -622,13 +690,48 @@ impl<'g> Cx<'g> {
                     return self.bail(m.span(), "wrong number of arguments");
                 }
                 let mut args = format!(" {}", r);
-                for (a, (_, pt)) in m.args.iter().zip(info.params.iter()) {
-                    let (t, _) = self.expr(a, Some(pt), stmts)?;
-                    args.push_str(&format!(" {}", t));
+                let mut places: Vec<Place> = Vec::new();
+                for (a, (pn, pt)) in m.args.iter().zip(info.params.iter()) {
+                    if info.mut_params.contains(pn) {
+                        let mut inner: &syn::Expr = a;
+                        loop {
+                            match inner {
+                                syn::Expr::Reference(r) => inner = &r.expr,
+                                syn::Expr::Paren(p) => inner = &p.expr,
+                                _ => break,
+                            }
+                        }
+                        let pl = self.place(inner, stmts)?;
+                        let t = self.read(&pl, stmts)?;
+                        args.push_str(&format!(" {}", t));
+                        places.push(pl);
+                    } else {
+                        let (t, _) = self.expr(a, Some(pt), stmts)?;
+                        args.push_str(&format!(" {}", t));
+                    }
                 }
-                Ok((format!("{}{}", self.fn_lean_name(&info), args), info))
+                Ok((format!("{}{}", self.fn_lean_name(&info), args), info, places))
             }
             _ => self.bail(e.span(), "expected a call"),
+        }
+    }
+
+    /// bind a call (`caller (term)`), write the `&mut` cursor arguments back, return the value term
+    fn finish_call(&mut self, caller: &str, term: &str, info: &FnInfo, places: &[Place], ok_ty: &Ty, stmts: &mut Vec<Stmt>) -> R<String> {
+        let t = self.fresh();
+        stmts.push(Stmt::Bind(t.clone(), Doc::atom(format!("{} ({})", caller, term))));
+        if places.is_empty() {
+            return Ok(t);
+        }
+        let _ = info;
+        let total = places.len() + 1;
+        for (i, pl) in places.iter().enumerate() {
+            self.write(pl, Self::tuple_proj(&t, i, total), stmts)?;
+        }
+        if matches!(ok_ty, Ty::Unit) {
+            Ok("()".to_string())
+        } else {
+            Ok(Self::tuple_proj(&t, total - 1, total))
         }
     }
 
@@ -660,6 +763,11 @@ impl<'g> Cx<'g> {
     fn mut_method_call(&mut self, m: &syn::ExprMethodCall, try_mode: bool, stmts: &mut Vec<Stmt>) -> R<Option<(String, Ty)>> {
         if !self.is_place(&m.receiver) {
             return Ok(None);
+        }
+        if m.method == "read_exact" && m.args.len() == 1 {
+            if let Some(r) = self.read_exact_call(m, try_mode, stmts)? {
+                return Ok(Some(r));
+            }
         }
         let mut probe: Vec<Stmt> = Vec::new();
         let saved = self.tmp_mark();
@@ -712,6 +820,88 @@ impl<'g> Cx<'g> {
         Ok(Some((v, ok_ty)))
     }
 
+    /// `reader.read_exact(&mut buf)?` / `reader.read_exact(&mut buf[a..b])?` on a `ReadCursor`:
+    /// reads as many bytes as the destination holds and stores them there
+    fn read_exact_call(&mut self, m: &syn::ExprMethodCall, try_mode: bool, stmts: &mut Vec<Stmt>) -> R<Option<(String, Ty)>> {
+        let mut probe: Vec<Stmt> = Vec::new();
+        let saved = self.tmp_mark();
+        let pl = match self.place(&m.receiver, &mut probe) {
+            Ok(p) => p,
+            Err(_) => {
+                self.tmp_reset(saved);
+                return Ok(None);
+            }
+        };
+        if !matches!(pl.ty(), Ty::Named(ref n) if n == "ReadCursor") {
+            self.tmp_reset(saved);
+            return Ok(None);
+        }
+        stmts.extend(probe);
+        if !try_mode {
+            return self.bail(m.span(), "a `Result` fn can only be called with `?` or in return position");
+        }
+        let io_err = Ty::Opaque("RustSem.IoError".into());
+        let caller = self.try_caller(&io_err, m.span())?;
+        let dst = match &m.args[0] {
+            syn::Expr::Reference(r) if r.mutability.is_some() => &*r.expr,
+            other => return self.bail(other.span(), "`read_exact` needs a `&mut` destination"),
+        };
+        let site = self.site(m);
+        let cur = self.read(&pl, stmts)?;
+        // destination: whole place or a sub-range of a place
+        if let syn::Expr::Index(ix) = dst {
+            if let syn::Expr::Range(r) = &*ix.index {
+                if !matches!(r.limits, syn::RangeLimits::HalfOpen(_)) {
+                    return self.bail(r.span(), "only half-open ranges are supported");
+                }
+                let dpl = self.place(&ix.expr, stmts)?;
+                if !matches!(dpl.ty(), Ty::List(ref e, _) if matches!(**e, Ty::Int(8) | Ty::IntAny)) {
+                    return self.bail(ix.expr.span(), "`read_exact` destination is not a byte buffer");
+                }
+                // the signature of `read_exact` fixes the element type of an `[0; N]` buffer to `u8`
+                if let Place::Var(n, Ty::List(e, k)) = &dpl {
+                    if matches!(**e, Ty::IntAny) {
+                        self.retype(n, Ty::List(Box::new(Ty::u8()), k.clone()));
+                    }
+                }
+                let dcur = self.read(&dpl, stmts)?;
+                let a = match &r.start {
+                    Some(a) => self.expr(a, Some(&Ty::usize()), stmts)?.0,
+                    None => "0".to_string(),
+                };
+                let b = match &r.end {
+                    Some(b) => self.expr(b, Some(&Ty::usize()), stmts)?.0,
+                    None => format!("(RustSem.len {})", dcur),
+                };
+                // `&mut buf[a..b]` is bounds-checked before the read
+                let sl = self.fresh();
+                stmts.push(Stmt::Bind(sl.clone(), Doc::atom(format!("RustSem.slice {} {} {} {}", dcur, a, b, site))));
+                let t = self.fresh();
+                stmts.push(Stmt::Bind(t.clone(), Doc::atom(format!("{} (RustSem.ReadCursor.read_exact {} (RustSem.len {}))", caller, cur, sl))));
+                self.write(&pl, format!("{}.1", t), stmts)?;
+                let t2 = self.fresh();
+                stmts.push(Stmt::Bind(t2.clone(), Doc::atom(format!("RustSem.copy_from_slice {} {} {} {}.2 {}", dcur, a, b, t, site))));
+                self.write(&dpl, t2, stmts)?;
+                return Ok(Some(("()".into(), Ty::Unit)));
+            }
+        }
+        let dpl = self.place(dst, stmts)?;
+        if !matches!(dpl.ty(), Ty::List(ref e, _) if matches!(**e, Ty::Int(8) | Ty::IntAny)) {
+            return self.bail(dst.span(), "`read_exact` destination is not a byte buffer");
+        }
+        if let Place::Var(n, Ty::List(e, k)) = &dpl {
+            if matches!(**e, Ty::IntAny) {
+                self.retype(n, Ty::List(Box::new(Ty::u8()), k.clone()));
+            }
+        }
+        let dcur = self.read(&dpl, stmts)?;
+        let t = self.fresh();
+        stmts.push(Stmt::Bind(t.clone(), Doc::atom(format!("{} (RustSem.ReadCursor.read_exact {} (RustSem.len {}))", caller, cur, dcur))));
+        self.write(&pl, format!("{}.1", t), stmts)?;
+        self.write(&dpl, format!("{}.2", t), stmts)?;
+        Ok(Some(("()".into(), Ty::Unit)))
+    }
+
     /// the `Exec` combinator for `callee(..)?` given the callee's error type
     fn try_caller(&self, callee_err: &Ty, span: proc_macro2::Span) -> R<String> {
         let my_err = match &self.err {
@@ -723,6 +913,7 @@ impl<'g> Cx<'g> {
         }
         let (src, dst) = match (callee_err, &my_err) {
             (Ty::Named(a), Ty::Named(b)) => (a.clone(), b.clone()),
+            (Ty::Opaque(a), Ty::Named(b)) => (a.rsplit('.').next().unwrap_or(a).to_string(), b.clone()),
             _ => return self.bail(span, "`?` with an error conversion between these types is not supported"),
         };
         match self.g.from_impls.iter().find(|(s, d, _)| *s == src && *d == dst) {
@@ -745,26 +936,28 @@ impl<'g> Cx<'g> {
                 return Ok(r);
             }
         }
-        let (term, info) = self.call_term(e, stmts)?;
+        let (term, info, places) = self.call_term(e, stmts)?;
         if matches!(info.ret, Ty::Res(_, _)) {
             return self.bail(e.span(), "a `Result` fn can only be called with `?` or in return position");
         }
         if info.self_mode == SelfMode::Mut {
             return self.bail(e.span(), "`&mut self` method called on something that is not a place");
         }
-        if !info.mut_params.is_empty() {
-            return self.bail(e.span(), "call of a fn with `&mut` cursor parameters is not supported");
-        }
-        let t = self.fresh();
-        stmts.push(Stmt::Bind(t.clone(), Doc::atom(format!("Exec.call ({})", term))));
-        Ok((t, info.ret.clone()))
+        let ret = info.ret.clone();
+        let v = self.finish_call("Exec.call", &term, &info, &places, &ret, stmts)?;
+        Ok((v, ret))
     }
 
     fn try_expr(&mut self, t: &syn::ExprTry, stmts: &mut Vec<Stmt>) -> R<(String, Ty)> {
+        self.try_call(&t.expr, t.span(), true, stmts)
+    }
+
+    /// `call?` (also used for a `Result` call in tail position: `g(..)` ≡ `Ok(g(..)?)` for equal error types)
+    pub fn try_call(&mut self, call: &syn::Expr, span: proc_macro2::Span, _question: bool, stmts: &mut Vec<Stmt>) -> R<(String, Ty)> {
         if self.err.is_none() {
-            return self.bail(t.span(), "`?` in a function that does not return `Result`");
+            return self.bail(span, "`?` in a function that does not return `Result`");
         }
-        let mut inner: &syn::Expr = &t.expr;
+        let mut inner: &syn::Expr = call;
         while let syn::Expr::Paren(p) = inner {
             inner = &p.expr;
         }
@@ -773,20 +966,16 @@ impl<'g> Cx<'g> {
                 return Ok(r);
             }
         }
-        let (term, info) = self.call_term(inner, stmts)?;
+        let (term, info, places) = self.call_term(inner, stmts)?;
         let (ok, er) = match &info.ret {
             Ty::Res(a, b) => ((**a).clone(), (**b).clone()),
-            _ => return self.bail(t.span(), "`?` on a call that does not return `Result`"),
+            _ => return self.bail(span, "`?` on a call that does not return `Result`"),
         };
         if info.self_mode == SelfMode::Mut {
-            return self.bail(t.span(), "`&mut self` method called on something that is not a place");
+            return self.bail(span, "`&mut self` method called on something that is not a place");
         }
-        if !info.mut_params.is_empty() {
-            return self.bail(t.span(), "call of a fn with `&mut` cursor parameters is not supported");
-        }
-        let caller = self.try_caller(&er, t.span())?;
-        let v = self.fresh();
-        stmts.push(Stmt::Bind(v.clone(), Doc::atom(format!("{} ({})", caller, term))));
+        let caller = self.try_caller(&er, span)?;
+        let v = self.finish_call(&caller, &term, &info, &places, &ok, stmts)?;
         Ok((v, ok))
     }
 
@@ -833,6 +1022,25 @@ impl<'g> Cx<'g> {
                 }
             }
             return self.bail(whole.span(), "`mem::take` needs a `&mut place` argument");
+        }
+        if segs.len() >= 2 && segs[segs.len() - 2] == "Error" && last == "new" && args.len() == 2
+            && (segs.len() == 2 || segs[segs.len() - 3] == "io")
+        {
+            // `io::Error::new(kind, msg)`: the content of an io::Error is not modelled; arguments must be pure
+            for a in &args {
+                match a {
+                    syn::Expr::Path(_) | syn::Expr::Lit(_) => {}
+                    other => return self.bail(other.span(), "`io::Error::new` arguments must be a kind path and a literal"),
+                }
+            }
+            return Ok(("RustSem.IoError.opaque".into(), Ty::Opaque("RustSem.IoError".into())));
+        }
+        if segs.len() == 2 && segs[0] == "i32" && last == "from_le_bytes" && args.len() == 1 {
+            let (t, ty) = self.expr(args[0], None, stmts)?;
+            if !matches!(&ty, Ty::List(e, _) if matches!(**e, Ty::Int(8))) {
+                return self.bail(whole.span(), "from_le_bytes needs a byte array");
+            }
+            return Ok((format!("(RustSem.i32_from_le_bytes {})", t), Ty::SInt(32)));
         }
         if segs.len() == 2 {
             if let Some(w) = int_width(&segs[0]) {
